@@ -160,6 +160,15 @@ class NatSpec(object):
             warnings.simplefilter("ignore")
             return getattr(np, name)(np.asarray(arr), axis=axis, **kw)
 
+    def op(self, name, x, y):
+        import warnings
+        with warnings.catch_warnings():
+            warnings.simplefilter("ignore")
+            return float(getattr(np, name)(float(x), float(y)))
+
+    def nan(self):
+        return float("nan")
+
     def prod(self, sizes):
         r = 1
         for x in sizes:
